@@ -40,7 +40,10 @@ def _write_chunk(filename, chunk, direct_write):
         aligned.seek(0)
         fd = os.open(filename, os.O_RDWR | os.O_CREAT | os.O_TRUNC | os.O_DIRECT, 0o666)
         try:
-            os.write(fd, aligned)
+            written = os.write(fd, aligned)
+            if written < size:
+                # A short write (e.g. disk nearly full) must not be padded with zeros below
+                raise OSError(errno.EIO, f'Short write ({written} of {size} bytes)', filename)
             # We had to round the size up to a page, now correct back to exact size
             os.ftruncate(fd, size)
         finally:
